@@ -68,8 +68,8 @@ def run(ctx):
             where(f, c), "commits of a stale member are not fenced; consumers restart from the wrong position")
 
     # ---- R2 shut down before (re)join
-    r = ctx.rule("R2", "the prepare hook is awaited on every path before the join request; it shuts every consumer down",
-                 3, "B")
+    r = ctx.rule("R2", "the prepare hook is awaited on every path before the join request; it shuts every consumer down; so does stop() before it leaves",
+                 4, "B")
     cf = ctx.cfg(jas)
     joins = [n for n in cf.nodes if any(call_name(x) == "send_join_group_request" for x in n.calls())]
     need(len(joins) == 1, "join request call not found once in _join_and_sync")
@@ -103,9 +103,21 @@ def run(ctx):
             "%s#swap-shutdown-wait" % sdc.qname, "graceful shutdown does not empty the table, shut every consumer down and "
             "wait for all of them", where(sdc, sdc.node))
 
+    # the group is left only after the consumers of the current generation have shut down (and committed): a LeaveGroup
+    # sent first makes their commits those of a member that is no longer in the group
+    gstop = prog.method(gci, "stop")
+    cgs = ctx.cfg(gstop)
+    sdw = [n.id for n in cgs.nodes if n.suspends and any(isinstance(x, (ast.Yield, ast.Await)) and isinstance(x.value, ast.Call) and
+                                                          prog.resolve_call(gstop, x.value) is sdc for x in n.walk())]
+    leave = [n for n in cgs.nodes if any(call_name(x) == "stop" and (isinstance(x.func.value, ast.Call) and call_name(x.func.value) == "super" or
+                                                                      norm(x.func.value) in ("Coordinator",)) for x in n.calls())]
+    r.check(gstop.cls is gci and bool(sdw) and bool(leave) and all(cgs.dominates(sdw, n.id) for n in leave), "%s#consumers-shut-down-before-leave" % gstop.qname,
+            "ConsumerGroup.stop() can reach Coordinator.stop() (which sends LeaveGroup) without having awaited shutdown_consumers()",
+            where(gstop, gstop.node), "LeaveGroup goes out while the generation's consumers still run; their commit follows the leave")
+
     # ---- R3 eviction stops consumers
     r = ctx.rule("R3", "illegal generation / unknown member / invalid group / timeout: consumers stopped before rejoin; "
-                       "unknown member forgets its id", 5, "A")
+                       "unknown member forgets its id; a commit is abandoned only when rejected", 6, "A")
     cr = ctx.cfg(rae)
     fr = ctx.facts(rae)
     p = rae.first_param()
@@ -145,6 +157,41 @@ def run(ctx):
         call_name(x) == "stop" and call_recv(x) in {unparse(y.target) for y in ast.walk(stc.node) if isinstance(y, ast.For)}
         for x in calls_in(stc)), "%s#forcible-stop" % ogl.qname,
         "ConsumerGroup.on_group_leave does not forcibly stop every consumer", where(ogl, ogl.node))
+
+    # "committing its progress unless the coordinator rejects the commit": the commit error handler gives up without a
+    # retry only for classes that are such a rejection - never for a class the error table itself marks retriable
+    from .c09 import exc_table
+    anc_, _alias = exc_table(prog)
+    hce_ = ctx.func("consumer:Consumer._handle_commit_error")
+    chc = ctx.cfg(hce_)
+    pce = hce_.first_param()
+    retry_nodes = [n.id for n in chc.nodes if any(call_name(x) == "callLater" for x in n.calls())]
+    need(retry_nodes, "commit retry scheduling not found")
+    gave_up = []
+    n_tests = 0
+    for n in chc.nodes:
+        if n.kind != "test":
+            continue
+        for sub in ast.walk(n.stmt.test):
+            if isinstance(sub, ast.Call) and call_name(sub) == "check" and call_recv(sub) == pce:
+                arm_t = [t for t, lab in chc.succ[n.id] if lab and lab[0] == "cond" and lab[2] is True]
+                positive = not any(isinstance(u, ast.UnaryOp) and isinstance(u.op, ast.Not) and sub in list(ast.walk(u)) for u in ast.walk(n.stmt.test))
+                if not positive or not arm_t:
+                    continue
+                n_tests += 1
+                if any(rn in chc.reach(arm_t) or rn in arm_t for rn in retry_nodes):
+                    continue
+                for a in sub.args:
+                    a = a.value if isinstance(a, ast.Starred) else a
+                    for e_ in (expand(prog, hce_, a).elts if isinstance(expand(prog, hce_, a), (ast.Tuple, ast.List)) else [a]):
+                        nm = unparse(e_).split(".")[-1]
+                        up = anc_.get(nm, {nm})
+                        if "RetriableBrokerResponseError" in up or "BrokerResponseError" not in up:
+                            gave_up.append(nm)
+    r.check(n_tests >= 1 and not gave_up, "%s#commit-abandoned-only-when-rejected" % hce_.qname,
+            "the commit is abandoned without a retry for %s, which the error table marks retriable (or which is not a broker answer)" % sorted(set(gave_up)),
+            where(hce_, hce_.node), "the coordinator moves while the previous generation's consumers shut down: their commit is answered "
+            "NOT_COORDINATOR once, is not retried, and the next generation re-processes what was already processed")
 
     # ---- R4 single join in flight
     r = ctx.rule("R4", "a join is started only when needed and none is in flight; join/sync senders have one caller", 3,
@@ -249,7 +296,7 @@ def run(ctx):
 
     # ---- R7 stop cancels every handle
     r = ctx.rule("R7", "Coordinator.stop cancels every discovered handle; unstored timers are fenced by a flag stop clears",
-                 4, "A+B")
+                 5, "A+B")
     handles = {}
     for f in [x for x in prog.funcs.values() if x.cls is cci]:
         for n in walk_body_shallow(f.body):
@@ -305,6 +352,17 @@ def run(ctx):
                     why = "cancel of self.%s depends on unrelated condition %s" % (a, norm(e))
         r.check(ok, "%s#cancels(%s:%s)" % (cstop.qname, a, k), why, where(cstop, cstop.node),
                 "that activity survives stop(): rejoin / heartbeat after the leave")
+    # the fence stays up: timers armed while stop() waits for the leave reply outlive it and are turned away only by the flag
+    fence_w = [(f_, node) for f_, k_, node in prog.attr_accesses(cci, "_stopping", False) if k_ == "write"]
+    lowered = []
+    for f_, node in fence_w:
+        cfw = ctx.cfg(f_)
+        hit = cfw.containing(node)
+        v_ = node_assign_value(hit[0], "_stopping") if hit else None
+        if not (isinstance(v_, ast.Constant) and v_.value is True) and f_.name not in ("__init__", "start"):
+            lowered.append("%s line %d" % (f_.qname, getattr(node, "lineno", 0)))
+    r.check(bool(fence_w) and not lowered, "%s#stop-fence-stays-up" % cstop.qname, "`_stopping` is lowered outside the constructor / start(): %s" % lowered,
+            where(cstop, cstop.node), "a rejoin timer armed while stop() waited for the leave reply fires afterwards and starts a new join exchange")
     # unstored timers
     sets_false = {self_attr(t) for n in cst.nodes if n.kind == "stmt" and isinstance(n.stmt, ast.Assign) and isinstance(
         n.stmt.value, ast.Constant) and n.stmt.value.value is False for t in n.stmt.targets if self_attr(t)}
